@@ -11,7 +11,10 @@ use proto_vulcan::lterm::LTerm;
 use proto_vulcan::operator::conde::Conde;
 use proto_vulcan::operator::conj::{Conj, DFSConj, InferredConj};
 use proto_vulcan::operator::disj::{DFSDisj, Disj};
-use proto_vulcan::operator::{conda, condu, dfs, onceo, OperatorParam};
+use proto_vulcan::operator::{conda, condu, dfs, onceo, anyo, OperatorParam, ClosureOperatorParam};
+use proto_vulcan::operator::closure::Closure;
+use proto_vulcan::relation::never::never;
+use proto_vulcan::relation::always::always;
 use proto_vulcan::relation::eq::Eq;
 use proto_vulcan::relation::diseq::Diseq;
 use proto_vulcan::solver::Solver;
@@ -263,9 +266,59 @@ fn gen(r: &mut Rng, depth: usize, bfs: bool) -> G {
     }
 }
 
+
+// ---- C07: fairness of interleaving disjunction, on a bounded prefix of the answer stream
+fn forever() -> Goal<U, E> {
+    // a silent diverger that is pure recursion through a closure
+    // (the body is a one-goal conjunction, as the closure macro builds it: each unfolding pauses once)
+    Closure::new(ClosureOperatorParam::new(Box::new(|| Conj::from_array(&[forever()])))).cast_into()
+}
+fn prefix(goal_of: fn(&[T]) -> Goal<U, E>, n: usize) -> Vec<Vec<String>> {
+    let vars: Vec<T> = vec![LTerm::var("x0"), LTerm::var("x1"), LTerm::var("x2")];
+    let goal = goal_of(&vars);
+    let mut solver: Solver<U, E> = Solver::new((), false);
+    let mut stream = solver.start(&goal, State::new(DefaultUser::new()));
+    let mut out = vec![];
+    while out.len() < n { match solver.next(&mut stream) { Some(st) => out.push(observe_state(&st, &vars)), None => break } }
+    out
+}
+fn eqk(vars: &[T], v: usize, k: isize) -> Goal<U, E> { Eq::new::<Goal<U, E>>(vars[v].clone(), LTerm::from(k)).cast_into() }
+fn cde(cs: Vec<Vec<Goal<U, E>>>) -> Goal<U, E> { let refs: Vec<&[Goal<U, E>]> = cs.iter().map(|v| &v[..]).collect(); Conde::from_conjunctions(&refs).cast_into() }
+fn lp(gs: Vec<Goal<U, E>>) -> Goal<U, E> { let refs: Vec<&[Goal<U, E>]> = vec![&gs[..]]; anyo(OperatorParam::new(&refs)) }
+
+fn fairness(rep: &mut Report) {
+    // (name, goal, prefix length, [(value of x0, minimum occurrences in the prefix)])
+    let scenarios: Vec<(&str, fn(&[T]) -> Goal<U, E>, usize, Vec<(&str, usize)>)> = vec![
+        ("conde{never(), x0=1}", |v| cde(vec![vec![never()], vec![eqk(v, 0, 1)]]), 1, vec![("1", 1)]),
+        ("conde{x0=1, never()}", |v| cde(vec![vec![eqk(v, 0, 1)], vec![never()]]), 1, vec![("1", 1)]),
+        ("conde{forever(), x0=1}", |v| cde(vec![vec![forever()], vec![eqk(v, 0, 1)]]), 1, vec![("1", 1)]),
+        ("conde{[always(),x0=1],[always(),x0=2]}", |v| cde(vec![vec![always(), eqk(v, 0, 1)], vec![always(), eqk(v, 0, 2)]]), 24, vec![("1", 4), ("2", 4)]),
+        ("conde{[always(),x0=1],[always(),x0=2],[always(),x0=3]}", |v| cde(vec![vec![always(), eqk(v, 0, 1)], vec![always(), eqk(v, 0, 2)], vec![always(), eqk(v, 0, 3)]]), 40, vec![("1", 3), ("2", 3), ("3", 3)]),
+        ("conde{never(), [always(),x0=1], x0=2}", |v| cde(vec![vec![never()], vec![always(), eqk(v, 0, 1)], vec![eqk(v, 0, 2)]]), 12, vec![("1", 3), ("2", 1)]),
+        ("conde{conde{never(), x0=1}, [always(),x0=2]}", |v| cde(vec![vec![cde(vec![vec![never()], vec![eqk(v, 0, 1)]])], vec![always(), eqk(v, 0, 2)]]), 12, vec![("1", 1), ("2", 3)]),
+        ("conde{[always(),x0=1], x0=2, false, never(), x0=3}", |v| cde(vec![vec![always(), eqk(v, 0, 1)], vec![eqk(v, 0, 2)], vec![Goal::fail()], vec![never()], vec![eqk(v, 0, 3)]]), 16, vec![("1", 3), ("2", 1), ("3", 1)]),
+        ("conde{[always(),x0=1], x0=2, [x0=3,false], never()}", |v| cde(vec![vec![always(), eqk(v, 0, 1)], vec![eqk(v, 0, 2)], vec![eqk(v, 0, 3), Goal::fail()], vec![never()]]), 12, vec![("1", 3), ("2", 1)]),
+        ("loop{conde{x0=1, never()}}", |v| lp(vec![cde(vec![vec![eqk(v, 0, 1)], vec![never()]])]), 6, vec![("1", 6)]),
+        ("loop{conde{x0=1, x0=2}}", |v| lp(vec![cde(vec![vec![eqk(v, 0, 1)], vec![eqk(v, 0, 2)]])]), 12, vec![("1", 3), ("2", 3)]),
+        ("conde{loop{x0=1}, loop{x0=2}, forever()}", |v| cde(vec![vec![lp(vec![eqk(v, 0, 1)])], vec![lp(vec![eqk(v, 0, 2)])], vec![forever()]]), 16, vec![("1", 3), ("2", 3)]),
+    ];
+    for (name, g, n, wants) in scenarios {
+        rep.case("fairness", format!("fair {}", name));
+        match guard_timeout(move || prefix(g, n), 10) {
+            Err(e) if e == "TIMEOUT" => { rep.fail("fairness", name.to_string(), format!("{} answers within 10 s", n), "no result: a branch is starved or a step does not return".into(), "starved"); rep.print(); std::process::exit(0); }
+            Err(e) => rep.fail("fairness", name.to_string(), "no panic".into(), e, "panic"),
+            Ok(got) => for (val, min) in wants {
+                let c = got.iter().filter(|a| a[0] == val).count();
+                if c < min { rep.fail("fairness", name.to_string(), format!("x0={} at least {} times among the first {} answers", val, min, n), format!("{} times; prefix {:?}", c, got.iter().map(|a| a[0].clone()).collect::<Vec<_>>()), "unfair"); }
+            },
+        }
+    }
+}
+
 pub fn search(tier: &str, seed: u64, _only: Option<&str>) {
     let n = if tier == "thorough" { 60_000 } else { 6_000 };
     let mut rep = Report::new("search", &format!("{} generated goal trees (depth <= 3, <= 3 clauses x <= 3 goals, 3 variables, constants 1..3; seed {}) + fixed shapes; every construction form of conj/disj", n, seed));
+    fairness(&mut rep);
     // fixed shapes: member-like choices, nested conj x disj with 3x3 answers (order-sensitive)
     let choice = |v: usize| G::Disj(0, vec![vec![G::Eq(v, 1)], vec![G::Eq(v, 2)], vec![G::Eq(v, 3)]]);
     for f in 0..4u8 { for d in 0..2u8 {
